@@ -37,7 +37,10 @@ func (c *Context) Set(key string, value interface{}) {
 // Value from the context, or it's parent's context if one exists.
 func (c *Context) Value(key interface{}) interface{} {
 	if s, ok := key.(string); ok {
-		if v, ok := c.data[s]; ok {
+		c.moot.Lock()
+		v, ok := c.data[s]
+		c.moot.Unlock()
+		if ok {
 			return v
 		}
 		if c.outer != nil {
@@ -63,6 +66,20 @@ func (c *Context) export() map[string]interface{} {
 			m[k] = v
 		}
 	}
+	for k, v := range c.snapshot() {
+		m[k] = v
+	}
+
+	return m
+}
+
+// snapshot returns a copy of the values set directly on this context
+// (not its outer contexts), taken under the context's lock.
+func (c *Context) snapshot() map[string]interface{} {
+	c.moot.Lock()
+	defer c.moot.Unlock()
+
+	m := make(map[string]interface{}, len(c.data))
 	for k, v := range c.data {
 		m[k] = v
 	}
